@@ -77,6 +77,32 @@ func newGen13(r *rng) *gen13 {
 		id := int16(20000 + r.intn(100))
 		s.Fields = append(s.Fields, &Fld{ID: id, Name: fmt.Sprintf("rec_%d", id), T: t, Req: 2})
 	}
+	// map<binary, V>: t2j writes the key bytes as they are and j2t copies the key text as it is (no base64 on either side)
+	var binKeys func(t *Ty, seen map[*Ty]bool)
+	binKeys = func(t *Ty, seen map[*Ty]bool) {
+		if t == nil || seen[t] {
+			return
+		}
+		seen[t] = true
+		switch t.K {
+		case thrift.STRUCT:
+			for _, f := range t.Fields {
+				binKeys(f.T, seen)
+			}
+		case thrift.LIST, thrift.SET:
+			binKeys(t.Elem, seen)
+		case thrift.MAP:
+			if t.Key.K == thrift.STRING && r.chance(35) {
+				t.Key.Binary = true
+			}
+			binKeys(t.Elem, seen)
+		}
+	}
+	seenT := map[*Ty]bool{}
+	for _, s := range g.structs {
+		binKeys(s, seenT)
+	}
+	binKeys(g.root, seenT)
 	g.mapWay = 0
 	if r.chance(40) {
 		g.mapWay = r.intn(3)
@@ -249,6 +275,9 @@ func (g *gen13) value13(t *Ty, depth int, o *opt13) *Val {
 		}
 	case thrift.DOUBLE:
 		v.D = g.finite13()
+		if r.chance(6) { // +-2^63, 2^64, 2^53+2, 2^31: integral doubles at the integer-type boundaries (printers with an integer fast path)
+			v.D = []uint64{0x43e0000000000000, 0xc3e0000000000000, 0x43f0000000000000, 0x4340000000000001, 0x41e0000000000000, 0xc1e0000000000000}[r.intn(6)]
+		}
 		if o.nonFinite && r.chance(30) {
 			v.D = []uint64{0x7ff0000000000000, 0xfff0000000000000, 0x7ff8000000000000}[r.intn(3)]
 		}
@@ -306,6 +335,13 @@ func (g *gen13) value13(t *Ty, depth int, o *opt13) *Val {
 		seen := map[string]bool{}
 		for i := 0; i < n; i++ {
 			k := g.value13(t.Key, depth+1, o)
+			if t.Key.K == thrift.STRING && t.Key.Binary {
+				// binary KEYS: text (mostly non-empty, valid UTF-8 so that the case stays inside the domain), not random bytes
+				k.S = g.genStr03(o.badUTF8)
+				if len(k.S) == 0 && r.chance(80) {
+					k.S = []byte("ab")
+				}
+			}
 			kb := string(k.encode(nil))
 			if seen[kb] {
 				continue
